@@ -128,6 +128,7 @@ type c18event struct {
 	kind  int
 	tract core.TractID
 	mut   int64 // mutation counter of the tract when the call started
+	wr    int64 // writes applied to the existing tract (since it was last created/deleted) when the call started
 }
 
 type c18thr struct {
@@ -148,6 +149,7 @@ type c18handle struct {
 	id     core.TractID
 	owner  *c18thr
 	closed int
+	fresh  bool // opened by creating the file
 }
 
 // ---------- environment: store + wrappers + scheduler ----------
@@ -159,6 +161,7 @@ type c18env struct {
 	by   map[int64]*c18thr
 	seq  int64
 	muts map[core.TractID]int64
+	wrs  map[core.TractID]int64
 	// handle accounting
 	handles []*c18handle
 	fdref   map[uint32]int
@@ -191,7 +194,7 @@ func (e *c18env) gate(kind int, id core.TractID) (core.Error, *c18thr) {
 	inj := <-th.release
 	e.mu.Lock()
 	e.seq++
-	th.events = append(th.events, c18event{seq: e.seq, kind: kind, tract: id, mut: e.muts[id]})
+	th.events = append(th.events, c18event{seq: e.seq, kind: kind, tract: id, mut: e.muts[id], wr: e.wrs[id]})
 	e.mu.Unlock()
 	return inj, th
 }
@@ -217,8 +220,11 @@ func (d *c18disk) Open(ctx context.Context, id core.TractID, flags int) (interfa
 	fd := f.(uint32)
 	if !existed {
 		d.e.mutated(id)
+		d.e.mu.Lock()
+		d.e.wrs[id] = 0
+		d.e.mu.Unlock()
 	}
-	h := &c18handle{fd: fd, id: id, owner: th}
+	h := &c18handle{fd: fd, id: id, owner: th, fresh: !existed}
 	d.e.mu.Lock()
 	d.e.handles = append(d.e.handles, h)
 	d.e.fdref[fd]++
@@ -271,6 +277,11 @@ func (d *c18disk) Write(ctx context.Context, f interface{}, b []byte, off int64)
 	}
 	n, err := d.MemDisk.Write(ctx, h.fd, b, off)
 	d.e.mutated(h.id)
+	if !h.fresh {
+		d.e.mu.Lock()
+		d.e.wrs[h.id]++
+		d.e.mu.Unlock()
+	}
 	return n, err
 }
 
@@ -315,6 +326,9 @@ func (d *c18disk) Delete(id core.TractID) core.Error {
 	err := d.MemDisk.Delete(id)
 	if err == core.NoError {
 		d.e.mutated(id)
+		d.e.mu.Lock()
+		d.e.wrs[id] = 0
+		d.e.mu.Unlock()
 	}
 	return err
 }
@@ -368,7 +382,7 @@ func (t *c18talker) CtlWrite(ctx context.Context, addr string, id core.TractID, 
 }
 
 func c18newEnv(caseID string) *c18env {
-	e := &c18env{by: map[int64]*c18thr{}, muts: map[core.TractID]int64{}, fdref: map[uint32]int{}, stale: map[uint32]bool{}, caseID: caseID}
+	e := &c18env{by: map[int64]*c18thr{}, muts: map[core.TractID]int64{}, wrs: map[core.TractID]int64{}, fdref: map[uint32]int{}, stale: map[uint32]bool{}, caseID: caseID}
 	cfg := DefaultTestConfig
 	cfg.ScrubRate = 0
 	e.md = NewMemDisk()
@@ -724,6 +738,7 @@ func c18runCase(clean, known *vw.Trace, c *c18case) {
 	}
 	e.mu.Lock()
 	e.opens, e.closes, e.handles = 0, 0, nil
+	e.wrs = map[core.TractID]int64{}
 	e.mu.Unlock()
 
 	for i := range c.ops {
@@ -777,7 +792,14 @@ func c18runCase(clean, known *vw.Trace, c *c18case) {
 		e.mu.Lock()
 		for _, w := range e.thr {
 			if w.state == c18stRunning { // blocked in busyCond.Wait
-				if v, ok := e.busyOfLocked(w.op.tract); ok && v == -2 {
+				bv, bok := e.busyOfLocked(w.op.tract)
+				if !bok || (bv > 0 && c18isReader(w.op.kind)) {
+					vw.Stat("mon.waiter-not-woken", 1)
+					c18reportOnce(c, "waiter-not-woken-op="+c18opNames[w.op.kind],
+						"an operation stays blocked in busyCond.Wait although its tract is free (or held only by readers and it is a reader): a wake-up was lost",
+						map[string]interface{}{"ops": c18opsDesc(c), "step": stepNo})
+				}
+				if v, ok := bv, bok; ok && v == -2 {
 					vw.Stat("mon.blocked-behind-long-writer", 1)
 					c18reportOnce(c, "blocked-behind-long-writer-op="+c18opNames[w.op.kind],
 						"an operation that meets a long-running copy-in (busy = -2) blocks instead of failing fast with ErrTooBusy",
@@ -877,6 +899,17 @@ func c18runCase(clean, known *vw.Trace, c *c18case) {
 					"the Disk-call sections of two operations on the same tract overlap and they are not both readers",
 					map[string]interface{}{"ops": c18opsDesc(c)})
 			}
+		}
+	}
+	// a successful conditional bump (stamp = initial+k, i.e. the client's Stat saw k modifications) implies that no
+	// further write was applied to the tract before the bump took the tract: at most k writes precede its section
+	for _, th := range e.thr {
+		if th.op.kind == c18SetVersion && th.op.a2 != 0 && th.state == c18stDone && len(th.result) > 0 &&
+			core.Error(th.result[0]) == core.NoError && len(th.events) > 0 && th.events[0].wr > th.op.a2-1 {
+			vw.Stat("mon.conditional-bump-after-write", 1)
+			c18reportOnce(c, "conditional-bump-succeeded-after-intervening-write",
+				"a conditional SetVersion succeeded although a write was applied to the tract after the Stat that produced its stamp: checking the stamp and bumping the version is not atomic with respect to writes",
+				map[string]interface{}{"ops": c18opsDesc(c), "stamp": th.op.a2 - 1, "writesApplied": th.events[0].wr})
 		}
 	}
 	hasGone := false
@@ -1042,6 +1075,10 @@ func TestVerifC18(t *testing.T) {
 	defer mtr.Close()
 	defer vw.Finish("C18")
 
+	// One P: operations woken by a Broadcast then run in the (FIFO) order in which they started waiting, which
+	// makes the realised wake-up order - and with it the trace - reproducible for a given seed.
+	oldProcs := runtime.GOMAXPROCS(1)
+
 	// ---- part 1: sequential, exhaustive in the failure position ----
 	nseq := 0
 	for _, sc := range c18scenarios() {
@@ -1131,6 +1168,8 @@ func TestVerifC18(t *testing.T) {
 		}
 	}
 	vw.Stat("cases", int64(nseq+nconc))
+
+	runtime.GOMAXPROCS(oldProcs)
 
 	// ---- part 3: Manager open-file accounting (F4) ----
 	c18managerPart(mtr, root)
